@@ -12,7 +12,10 @@ use core::hash::{Hash, Hasher};
 use core::marker::PhantomData;
 use core::mem;
 use core::ops::Range;
+#[cfg(not(redb_verif))]
 use core::sync::atomic::{AtomicBool, Ordering as AtomicOrdering};
+#[cfg(redb_verif)]
+use {crate::sync::verif::atomic::AtomicBool, core::sync::atomic::Ordering as AtomicOrdering};
 
 pub(crate) const MAX_VALUE_LENGTH: usize = 3 * 1024 * 1024 * 1024;
 pub(crate) const MAX_PAIR_LENGTH: usize = 3 * 1024 * 1024 * 1024 + 768 * 1024 * 1024;
